@@ -4,7 +4,13 @@ from typing import Any
 
 import narwhals as nw
 import polars as pl
-from pydantic import BaseModel, ConfigDict, Field, field_validator
+from pydantic import (
+    BaseModel,
+    ConfigDict,
+    Field,
+    ValidationInfo,
+    field_validator,
+)
 
 from rtflite.row import (
     BORDER_CODES,
@@ -545,20 +551,20 @@ class TableAttributes(TextAttributes):
     @field_validator(
         "col_rel_width", "border_width", "cell_height", "cell_nrow", mode="after"
     )
-    def validate_positive_value(cls, v):
+    def validate_positive_value(cls, v, info: ValidationInfo):
         if v is not None:
             # Check if any value is <= 0
             if isinstance(v[0], (list, tuple)):
                 # 2D array
                 if any(val <= 0 for row in v for val in row):
                     raise ValueError(
-                        f"{cls.__field_name__.capitalize()} must be positive"
+                        f"{str(info.field_name).capitalize()} must be positive"
                     )
             else:
                 # 1D array
                 if any(val <= 0 for val in v):
                     raise ValueError(
-                        f"{cls.__field_name__.capitalize()} must be positive"
+                        f"{str(info.field_name).capitalize()} must be positive"
                     )
         return v
 
@@ -582,7 +588,7 @@ class TableAttributes(TextAttributes):
         "border_last",
         mode="after",
     )
-    def validate_border(cls, v):
+    def validate_border(cls, v, info: ValidationInfo):
         """Validate that all border styles are valid."""
         if v is None:
             return v
@@ -590,7 +596,7 @@ class TableAttributes(TextAttributes):
         for row in v:
             for border in row:
                 if border not in BORDER_CODES:
-                    field_name = cls.__field_name__.capitalize()
+                    field_name = str(info.field_name).capitalize()
                     raise ValueError(
                         f"{field_name} with invalid border style: {border}"
                     )
